@@ -86,7 +86,7 @@ def b_int(interp, args, kwargs, node):
     if isinstance(v, SFloat):
         trust(interp, 'A-FLOAT: float is modelled as a real; int(x) truncates toward zero')
         t = v.t
-        return mk_int(z3.If(t >= 0, z3.ToInt(t), -z3.ToInt(-t)))
+        return mk_int(z3.If(t >= 0, sym.floor_int(interp.ex, t), -sym.floor_int(interp.ex, -t)))
     if isinstance(v, SStr):
         trust(interp, 'A-STRNUM: int(s) is an uninterpreted partial parse (int_parses/int_parse)')
         parses, parse = uf('int_parses', S, B), uf('int_parse', S, I)
@@ -621,7 +621,7 @@ def b_round(interp, args, kwargs, node):
     trust(interp, 'A-ROUND: built-in round(x, n) rounds the binary value to the nearest multiple of 10^-n, ties to even')
     if nd is None or (isinstance(nd, int) and nd == 0 and False):
         t = as_real_term(v)
-        fl = z3.ToInt(t)
+        fl = sym.floor_int(interp.ex, t)
         frac = t - z3.ToReal(fl)
         r = z3.If(frac < 0.5, fl, z3.If(frac > 0.5, fl + 1, z3.If(fl % 2 == 0, fl, fl + 1)))
         return mk_int(r)
@@ -635,7 +635,7 @@ def b_round(interp, args, kwargs, node):
     else:
         m = z3.RealVal(10 ** (-nd))
         x = t / m
-    fl = z3.ToInt(x)
+    fl = sym.floor_int(interp.ex, x)
     frac = x - z3.ToReal(fl)
     r = z3.If(frac < 0.5, fl, z3.If(frac > 0.5, fl + 1, z3.If(fl % 2 == 0, fl, fl + 1)))
     if isinstance(v, (SInt, SBool, int)):
@@ -696,7 +696,7 @@ def b_pow(interp, args, kwargs, node):
             return mk_int(r)
         return mk_float(uf('pow_real', R, R, R)(ta, tb))
     # float involved
-    is_integral = (z3.ToReal(z3.ToInt(tb)) == tb)
+    is_integral = (z3.ToReal(sym.floor_int(ex, tb)) == tb)
     if ex.branch(z3.And(ta < 0, z3.Not(is_integral))):
         return sym.SComplex(None)
     may_overflow = z3.And(z3.Or(ta > 1, ta < -1), tb > 1)
@@ -730,7 +730,7 @@ def b_repr(interp, args, kwargs, node):
                       'uninterpreted rendering float_repr(x) whose Decimal value is x')
         return mk_str(uf('float_repr', R, S)(v.t))
     if isinstance(v, (SInt,)):
-        return mk_str(int_to_str_term(v.t))
+        return mk_str(uf('int_repr', I, S)(v.t))
     if not isinstance(v, SV):
         return repr(v)
     raise Unsupported('repr of symbolic', node)
@@ -757,7 +757,7 @@ def b_floor(interp, args, kwargs, node):
     v = args[0]
     if isinstance(v, SFloat):
         trust(interp, 'A-FLOAT: math.floor/ceil exact on the real value')
-        return mk_int(z3.ToInt(v.t))
+        return mk_int(sym.floor_int(interp.ex, v.t))
     if isinstance(v, (SInt, SBool)):
         return mk_int(as_int_term(v))
     if isinstance(v, (int, float)):
@@ -769,7 +769,7 @@ def b_ceil(interp, args, kwargs, node):
     v = args[0]
     if isinstance(v, SFloat):
         trust(interp, 'A-FLOAT: math.floor/ceil exact on the real value')
-        return mk_int(-z3.ToInt(-v.t))
+        return mk_int(-sym.floor_int(interp.ex, -v.t))
     if isinstance(v, (SInt, SBool)):
         return mk_int(as_int_term(v))
     if isinstance(v, (int, float)):
@@ -845,7 +845,7 @@ def value_getattr(interp, obj, name, node):
             return obj
         if name == 'is_integer' and isinstance(obj, (SFloat, float)):
             t = as_real_term(obj)
-            return Builtin('float.is_integer', lambda i, a, k, n: mk_bool(z3.ToReal(z3.ToInt(t)) == t))
+            return Builtin('float.is_integer', lambda i, a, k, n: mk_bool(z3.ToReal(sym.floor_int(i.ex, t)) == t))
         interp.raise_exc('AttributeError',
                          f"'{pytype_name(obj)}' object has no attribute '{name}'", node)
     if isinstance(obj, sym.SComplex):
@@ -1285,8 +1285,9 @@ def make_externals(world):
                    ('or_', 'or'), ('xor', 'xor'), ('lshift', 'lshift'), ('rshift', 'rshift')):
         ext[f'operator.{nm}'] = Builtin(f'operator.{nm}',
                                         lambda i, a, k, n, _op=op: i.binop(_op, a[0], a[1], n))
-    from . import calendar_model
+    from . import calendar_model, decimal_model
     calendar_model.register(ext)
+    decimal_model.register(ext)
     import ast as _ast
     ext['operator.neg'] = Builtin('operator.neg', lambda i, a, k, n: i.unaryop(_ast.USub(), a[0], n))
     ext['operator.pos'] = Builtin('operator.pos', lambda i, a, k, n: i.unaryop(_ast.UAdd(), a[0], n))
